@@ -162,4 +162,10 @@ def suite_service_id(ctx):
     return s
 
 
-SUITES = [suite_echo, suite_service_id]
+def suite_callw(ctx):
+    """whole client calls of every service family against the model's callWith (udsdrv callw): the correspondence the call-level theorems rest on"""
+    from .. import callw
+    return callw.suite_callw(ctx, 'C03')
+
+
+SUITES = [suite_echo, suite_service_id, suite_callw]
